@@ -63,6 +63,7 @@ class FnCtx:
             self.params.append(fn.args.kwarg.arg)
         self.batch_names: set[str] = set()
         self.second_names: set[str] = set()          # the axis right after the batch (coil, slice, …)
+        self.other_shape_names: set[str] = set()     # names bound from a `.shape` unpacking at positions >= 1
         self.local_axes: dict[str, tuple[int, list[int]]] = {}
         self.shape_lists: dict[str, int] = {}        # name -> head code of a list literal used as reshape target
         self.local_lits: dict[str, object] = {}      # names assigned exactly once, to an integer / tuple-of-integers literal
@@ -90,6 +91,9 @@ class FnCtx:
                         self.batch_names.add(t.elts[0].id)
                     if len(t.elts) > 1 and isinstance(t.elts[1], ast.Name):
                         self.second_names.add(t.elts[1].id)
+                    for el in t.elts[1:]:
+                        if isinstance(el, ast.Name):
+                            self.other_shape_names.add(el.id)
                 if isinstance(t, ast.Name) and self._is_dim0(v):
                     self.batch_names.add(t.id)
                 if isinstance(t, ast.Name):
@@ -210,7 +214,8 @@ class FnCtx:
         """syntactic form of the first target extent of a reshape:
         0 the batch size itself (name bound from `.shape` position 0, `x.shape[0]`, `x.size(0)`)
         1 literal -1    2 product containing the batch size (batch folded together with another axis)
-        3 a literal integer >= 0   4 anything else"""
+        3 a literal integer >= 0   4 anything else (unresolved)   5 another named extent (a parameter, or a name bound from a
+        `.shape` unpacking at a position other than 0)"""
         if node is None:
             return 4
         if isinstance(node, ast.Starred):
@@ -229,6 +234,8 @@ class FnCtx:
             return 4
         if isinstance(node, ast.Constant) and isinstance(node.value, int) and not isinstance(node.value, bool):
             return 3
+        if isinstance(node, ast.Name) and (node.id in self.params or node.id in self.second_names or node.id in self.other_shape_names):
+            return 5                  # a named extent that is not the batch size (`groups`, `c`, `h`, …)
         return 4
 
     def rest_code(self, args) -> int:
@@ -851,7 +858,21 @@ class World:
             if not rel.startswith("direct/nn/"):
                 continue
             eng = _is_engine_file(pathlib.Path(rel))
+            init_only = set()
+            for cname, cdef in fi.classes.items():
+                called_by: dict[str, set[str]] = {}
+                for f in cdef.body:
+                    if isinstance(f, ast.FunctionDef):
+                        for c in ast.walk(f):
+                            if isinstance(c, ast.Call) and isinstance(c.func, ast.Attribute) and isinstance(c.func.value, ast.Name) \
+                                    and c.func.value.id in ("self", "cls", cname):
+                                called_by.setdefault(c.func.attr, set()).add(f.name)
+                for m, callers in called_by.items():
+                    if m != "forward" and callers and callers <= SKIP_METHODS:
+                        init_only.add(f"{cname}.{m}")      # helpers of constructors / weight initialisation only
             for (q, _ln), (fn, cls) in sorted(fi.funcs.items(), key=lambda kv: kv[0][1]):
+                if q in init_only:
+                    continue
                 if "<locals>" in q:
                     continue
                 short = q.split(".")[-1]
